@@ -13,6 +13,12 @@
 (* ops may be conversions (also refused ones: err # "none", judged as stutter steps)  *)
 (* or steps of the caller ("fresh", "mut_names", "mut_shape", "mut_lock").            *)
 (* Failing clauses are printed as "<step>:<clause>" (step 0 = the initial array).     *)
+(* SESSIONS: a record is judged from its own states only, whatever the process that   *)
+(* executed it had executed before - i.e. as if it had run in a fresh process         *)
+(* (ByteOrder.tla, SESSIONS; SessionFreshThm / SessionThm in ByteOrderMC).  The        *)
+(* harness keeps, per process, the order in which it executed its chains; when a step  *)
+(* rejected here is accepted for the same chain executed alone in a fresh process,     *)
+(* the case it reports and replays is the session, judged here on its last chain.      *)
 EXTENDS ByteOrder, Json, IOUtils
 
 VARIABLES blk, tid
